@@ -446,6 +446,19 @@ func checkAST(t *core.T, desc, class string, ast0 *sast.Schema) {
 	if err != nil || !bytes.Equal(js, js2) {
 		t.Fail(sig("json-second-encoding-differs"), jin(), string(js), string(js2)+fmt.Sprint(err))
 	}
+	// the same JSON document in other spellings (indented, members reversed, escaped member names)
+	if alts, err := core.JSONSpellings(js); err != nil {
+		t.Fail("harness-json-spelling", jin(), "valid JSON", err.Error())
+	} else {
+		for k, a := range alts {
+			var sa schema.Schema
+			if err := sa.UnmarshalJSON([]byte(a)); err != nil {
+				t.Fail(sig(fmt.Sprintf("json-spelling-rejected:%d", k)), a, "decodes like "+string(js), err.Error())
+			} else if g, e := resolveCanon(&sa); (e == nil) != (gerr == nil) || g != got {
+				t.Fail(sig(fmt.Sprintf("json-spelling-decodes-differently:%d", k)), a, got, g+fmt.Sprint(e))
+			}
+		}
+	}
 	// --- conversions commute with resolution: text -> JSON and JSON -> text
 	if werr == nil {
 		if jt, err := s1.MarshalJSON(); err == nil {
